@@ -55,7 +55,13 @@ stone = 14 * pound
 @context Y
     foot = 3 * s
 @end
+@system tm
+    minute
+@end
 """.strip().splitlines()
+# a default system makes the registry keep its per-registry base-units memo (ureg.get_base_units),
+# one more answer that must follow the active stack
+REGKW = {"system": "tm"}
 
 OPS = ["enA", "enAp", "enB", "enC", "enX", "enY", "enBX", "dis1", "disAll", "withB", "exit", "raiseC", "def"]
 
@@ -110,6 +116,12 @@ def battery(ureg, pint, newunits):
             out.append(str(ureg.Quantity(F(2), u).to_base_units().magnitude))
         except Exception as e:  # noqa: BLE001
             out.append("raised:" + type(e).__name__)
+    for u in ("foot", "pound", "mile", "foot / minute", "stone * yard"):
+        try:
+            f, bu = ureg.get_base_units(u)
+            out.append(("base", u, str(f), tuple(sorted(bu._units._d.items()))))
+        except Exception as e:  # noqa: BLE001
+            out.append("raised:" + type(e).__name__)
     try:
         out.append(tuple(sorted(str(x) for x in ureg.get_compatible_units("m"))))
         out.append(tuple(sorted(str(x) for x in ureg.get_compatible_units("g"))))
@@ -135,7 +147,7 @@ class Machine:
 
     def __init__(self, pint, rec):
         self.pint, self.rec = pint, rec
-        self.ureg = pint.UnitRegistry(TEXT, non_int_type=F, cache_folder=None)
+        self.ureg = pint.UnitRegistry(TEXT, non_int_type=F, cache_folder=None, **REGKW)
         self.stack = []          # model: list of (name, kwargs), oldest first
         self.pending = []        # open with-blocks (context manager objects)
         self.defs = []           # definitions applied so far
@@ -231,7 +243,7 @@ class Machine:
                 self.trouble = ("define-raised", type(e).__name__)
 
     def twin(self):
-        t = self.pint.UnitRegistry(TEXT, non_int_type=F, cache_folder=None)
+        t = self.pint.UnitRegistry(TEXT, non_int_type=F, cache_folder=None, **REGKW)
         for _, line in self.defs:
             t.define(line)
         for n, kw in self.stack:
@@ -283,7 +295,7 @@ def run_sequence(seq, pint, rec, probe_each=False):
         rec.violation("residue-after-leaving-all-contexts",
                       {"sequence": list(seq), "first_differences": repr(diff)[:600]}, **fields)
     if newunits:
-        t = pint.UnitRegistry(TEXT, non_int_type=F, cache_folder=None)
+        t = pint.UnitRegistry(TEXT, non_int_type=F, cache_folder=None, **REGKW)
         for _, line in mach.defs:
             t.define(line)
         if battery(mach.ureg, pint, newunits) != battery(t, pint, newunits):
@@ -322,7 +334,7 @@ def run_shard(spec, rec):
     else:
         # Context OBJECTS shared by two registries: activity in one must not show in the other
         for i in range(spec["n"]):
-            r1 = pint.UnitRegistry(TEXT, non_int_type=F, cache_folder=None)
+            r1 = pint.UnitRegistry(TEXT, non_int_type=F, cache_folder=None, **REGKW)
             r2 = pint.UnitRegistry(TEXT[:TEXT.index("@context(p=2) A = a")], non_int_type=F, cache_folder=None)
             for name in ("A", "B", "C"):
                 r2.add_context(r1._contexts[name])
